@@ -44,6 +44,27 @@ def mc_search(ctx):
     if n.violated not in ("ExactTasks", "ExactValue"):
         raise ToolError("negative control failed: the (hash, alpha, beta) cache key was not rejected (%s)" % n.violated)
     ctx.extra["design_level"] = "MC_Search: all interleavings, key (hash, depth, side, alpha, beta): exact and terminating (%d states); key (hash, alpha, beta): %s violated" % (r.distinct, n.violated)
+    # a family of random abstract games with transpositions at different depths / sides
+    import searchgames
+    games, st, gen, wfail = searchgames.run_family(5 if ctx.tier == "quick" else 60, ctx.seed)
+    ctx.states += st
+    ctx.transitions += gen
+    ctx.extra["design_level_family"] = "%d random abstract games: full key exact under every interleaving (%d states); the (hash, alpha, beta) key is inexact on %d of them" % (games, st, wfail)
+    # the locking discipline: no interleaving of the lock acquisitions deadlocks (both RwLock policies)
+    for pol in ("fair", "writer-preferring"):
+        cfg = tlc.write_cfg("searchlocks_%d.cfg" % os.getpid(), 'SPECIFICATION Spec\nCONSTANTS Tasks = {1, 2, 3}\n Rounds = 2\n Policy = "%s"\n Upgrade = FALSE\nINVARIANT Exclusion\nPROPERTY Terminates\nCHECK_DEADLOCK TRUE\n' % pol)
+        r = tlc.run("SearchLocks", cfg, workers=4, heap="1g", young="200m", timeout=900)
+        os.unlink(cfg)
+        if r.violated:
+            raise ToolError("SearchLocks (%s) violates %s" % (pol, r.violated))
+        ctx.states += r.distinct
+        ctx.transitions += r.generated
+    cfg = tlc.write_cfg("searchlocks_neg_%d.cfg" % os.getpid(), 'SPECIFICATION Spec\nCONSTANTS Tasks = {1, 2, 3}\n Rounds = 2\n Policy = "fair"\n Upgrade = TRUE\nINVARIANT Exclusion\nCHECK_DEADLOCK TRUE\n')
+    r = tlc.run("SearchLocks", cfg, workers=4, heap="1g", young="200m", timeout=900)
+    os.unlink(cfg)
+    if r.violated != "deadlock":
+        raise ToolError("negative control failed: the read-to-write upgrade was not reported as a deadlock")
+    ctx.extra["design_level_locks"] = "SearchLocks: 3 tasks x 2 node visits, fair and writer-preferring RwLock: no deadlock, mutual exclusion, termination; upgrade control deadlocks"
 
 
 def c07(ctx):
